@@ -546,7 +546,7 @@ fn cases(r: &mut Report, rng: &mut Rng, stream: &str, m: &MMappings, sc: &mut Sc
 			}
 		}
 	}
-	r.case(stream, compact(&format!("CSet {gm} {} {} {} {} {}", gres(wall.as_ref().map(|t| gstr(t))), gopt(back.map(|b| gres(b.map(|b| g_classes(&b))))), glist(ones), gopt(dirw), gopt(dirback))));
+	r.case(stream, compact(&format!("CSet {gm} {} {} {} {} {} {}", gbool(enigma_ok(m).is_ok()), gres(wall.as_ref().map(|t| gstr(t))), gopt(back.map(|b| gres(b.map(|b| g_classes(&b))))), glist(ones), gopt(dirw), gopt(dirback))));
 }
 
 pub fn run(ctx: &Ctx) -> anyhow::Result<Report> {
